@@ -131,7 +131,16 @@ func Size(v amf0.Amf0) (n int, panicked string) {
 
 // Decode is what every caller of the library does: Discovery on the first
 // byte, then UnmarshalBinary of the same slice.
-func Decode(b []byte) (a amf0.Amf0, err error, panicked string) {
+func Decode(in []byte) (a amf0.Amf0, err error, panicked string) {
+	// the library decodes from a private copy of the input that is overwritten as soon as the call has returned (the way a
+	// connection's read buffer is when the next message arrives): encoding.BinaryUnmarshaler requires UnmarshalBinary to
+	// copy what it keeps, so a value that still refers to its input shows in every later comparison
+	b := append([]byte{}, in...)
+	defer func() {
+		for i := range b {
+			b[i] = 0xa5
+		}
+	}()
 	if p, msg := hl.Try(func() {
 		a, err = amf0.Discovery(b)
 		if err != nil {
